@@ -14,10 +14,10 @@ package packetmap
 //@
 //@ -- ghost state (specification only)
 //@ --   dropped: packets withheld since the last resynchronisation
-//@ --   started: some packet has been mapped since creation
+//@ --   begun: some packet has been mapped or withheld since creation
 //@ --   lastOut: outgoing number given to the newest accepted packet
 //@ ghost field Map.dropped uint16
-//@ ghost field Map.started bool
+//@ ghost field Map.begun bool
 //@ ghost field Map.lastOut uint16
 //@ --   droppedFrames: picture ids (frames) withheld since the last resynchronisation
 //@ ghost field Map.droppedFrames uint16
@@ -28,9 +28,9 @@ package packetmap
 //@ -- I_tail: the newest interval ends exactly where the withheld packets begin
 //@ spec tail(m *Map) bool = len(m.entries) > 0 ==> last(m).first + last(m).count + (last(m).delta - m.delta) == m.next
 //@ spec wf(m *Map) bool = shape(m) && tail(m) && m.delta == 0 - m.dropped && m.pidDelta == m.droppedFrames
-//@      && (!m.started ==> m.next == 0 && isnil(m.entries))
+//@      && (!m.begun ==> m.next == 0 && isnil(m.entries) && !m.started) && (m.started ==> m.begun)
 //@ -- the next outgoing number is the one after the newest forwarded packet
-//@ spec contiguous(m *Map) bool = m.started ==> m.next + m.delta == m.lastOut + 1
+//@ spec contiguous(m *Map) bool = m.begun ==> m.next + m.delta == m.lastOut + 1
 //@
 //@ func compare
 //@   safe
@@ -53,12 +53,12 @@ package packetmap
 //@   requires nonnil: m != nil
 //@   requires unlocked: !held(m.mu)
 //@   requires wf: wf(m) && contiguous(m)
-//@   modifies m.next, m.nextPid, m.delta, m.pidDelta, m.entries, held(m.mu), m.dropped, m.started, m.lastOut, m.droppedFrames
+//@   modifies m.next, m.nextPid, m.delta, m.pidDelta, m.entries, held(m.mu), m.dropped, m.begun, m.lastOut, m.droppedFrames
 //@   ghost m.dropped = result ? old(m.dropped) + 1 : old(m.dropped)
 //@   -- a withheld packet whose picture id differs from the previous packet's starts a newly withheld frame
 //@   ghost m.droppedFrames = result ? old(m.droppedFrames) + (pid - old(m.nextPid)) : old(m.droppedFrames)
-//@   ghost m.lastOut = (result && !old(m.started)) ? seqno - 1 : old(m.lastOut)
-//@   ghost m.started = old(m.started) || result
+//@   ghost m.lastOut = (result && !old(m.begun)) ? seqno - 1 : old(m.lastOut)
+//@   ghost m.begun = old(m.begun) || result
 //@   ensures unlocked: !held(m.mu)
 //@   ensures wf: wf(m) && contiguous(m)
 //@   ensures iff-next: result == (seqno == old(m.next))
@@ -118,7 +118,7 @@ package packetmap
 //@ spec inorder(m *Map, s uint16) bool = cmp16(m.next, s) <= 0 && s - m.next <= 8192
 //@ spec late(m *Map, s uint16) bool = cmp16(m.next, s) > 0 && m.next - s <= 8192
 //@ spec jump(m *Map, s uint16) bool = !inorder(m, s) && !late(m, s)
-//@ spec pristine_updates(m *Map, s uint16) bool = cmp16(m.next, s) <= 0 || m.next - s > 8192
+//@ spec pristine_updates(m *Map, s uint16) bool = !m.started || cmp16(m.next, s) <= 0 || m.next - s > 8192
 //@
 //@ func (*Map).Map
 //@   safe
@@ -126,14 +126,14 @@ package packetmap
 //@   requires nonnil: m != nil
 //@   requires unlocked: !held(m.mu)
 //@   requires wf: wf(m) && contiguous(m)
-//@   modifies m.next, m.nextPid, m.delta, m.pidDelta, m.lastEntry, m.entries, full(m.entries), held(m.mu), m.dropped, m.started, m.lastOut, m.droppedFrames
+//@   modifies m.next, m.nextPid, m.delta, m.pidDelta, m.lastEntry, m.entries, full(m.entries), held(m.mu), m.started, m.dropped, m.begun, m.lastOut, m.droppedFrames
 //@   ghost m.dropped = (!old(pristine(m)) && old(jump(m, seqno))) ? 0 : old(m.dropped)
 //@   ghost m.droppedFrames = (!old(pristine(m)) && old(jump(m, seqno))) ? 0 : old(m.droppedFrames)
-//@   ghost m.lastOut = (!old(m.started) || (old(pristine(m)) ? old(pristine_updates(m, seqno)) : !old(late(m, seqno)))) ? result1 : old(m.lastOut)
-//@   ghost m.started = true
+//@   ghost m.lastOut = (!old(m.begun) || (old(pristine(m)) ? old(pristine_updates(m, seqno)) : !old(late(m, seqno)))) ? result1 : old(m.lastOut)
+//@   ghost m.begun = true
 //@   ensures unlocked: !held(m.mu)
-//@   ensures wf: wf(m)
-//@   -- after any accepted newest packet the next outgoing number follows it (fails for a fresh map, see known findings)
+//@   ensures wf: wf(m) && m.started
+//@   -- after any accepted newest packet the next outgoing number follows it
 //@   ensures contiguous: contiguous(m)
 //@   ensures pristine: old(pristine(m)) ==> result0 && result1 == seqno && result2 == 0 && pristine(m) && m.delta == 0
 //@        && m.next == (old(pristine_updates(m, seqno)) ? seqno + 1 : old(m.next))
@@ -145,7 +145,7 @@ package packetmap
 //@   --      plus one for every packet that has not arrived (yet)
 //@   -- C02: the picture-id shift handed out is the number of frames withheld so far
 //@   ensures pid-shift: (old(pristine(m)) || old(inorder(m, seqno))) ==> result2 == old(m.droppedFrames)
-//@   ensures gap-free: old(m.started) && old(inorder(m, seqno)) ==> result1 == old(m.lastOut) + 1 + (seqno - old(m.next))
+//@   ensures gap-free: old(m.begun) && old(inorder(m, seqno)) ==> result1 == old(m.lastOut) + 1 + (seqno - old(m.next))
 //@   ensures jump: !old(pristine(m)) && old(jump(m, seqno)) ==> result0 && result1 == seqno && result2 == 0
 //@        && m.next == seqno + 1 && m.nextPid == pid && pristine(m) && m.dropped == 0
 //@   ensures late-unchanged: !old(pristine(m)) && old(late(m, seqno)) ==> m.next == old(m.next) && m.nextPid == old(m.nextPid)
